@@ -47,6 +47,14 @@ PACK = [
     ("pr-end-skip-first", "C14", PR, r"            self\.stack\.items\[i\]\.event_end\(\);", "            if i > 0 { self.stack.items[i].event_end(); }", "kill"),
     ("ch-limit-ge", "C07", CH, r"msg\.length\(\) > limit\.unwrap_or\(usize::MAX\)", "msg.length() >= limit.unwrap_or(usize::MAX)", "kill"),
     ("ch-lifo", "C07", CH, r"self\.packets\.push_back\(\(msg, con\)\);", "self.packets.push_front((msg, con));", "kill"),
+    ("cs-flip-busy", "C07", CH, r"        if chan\.busy \{\n            let ChannelInner \{\n                metrics, buffer", "        if !chan.busy {\n            let ChannelInner {\n                metrics, buffer", "kill"),
+    ("cs-no-mark", "C07", CH, r"                self\.set_busy_until\(transmissin_finish\);\n", "", "kill"),
+    ("cs-exit-at-busy", "C07", CH, r"let next_event_time = SimTime::now\(\) \+ dur;", "let next_event_time = SimTime::now() + busy;", "kill"),
+    ("cs-unbusy-at-dur", "C07", CH, r"let transmissin_finish = SimTime::now\(\) \+ busy;", "let transmissin_finish = SimTime::now() + dur;", "kill"),
+    ("cs-zero-test-flip", "C07", CH, r"if busy != Duration::ZERO \{", "if busy == Duration::ZERO {", "kill"),
+    ("cs-no-unbusy-notif", "C07", CH, r"(                self\.set_busy_until\(transmissin_finish\);\n)\n                sink\.add\(\n                    NetEvents::ChannelUnbusyNotif\(ChannelUnbusyNotif \{\n                        channel: self\.clone\(\),\n                    \}\),\n                    transmissin_finish,\n                \);\n", r"\1", "kill"),
+    ("eq-cs-is-zero", "C07", CH, r"if busy != Duration::ZERO \{", "if !busy.is_zero() {", "keep"),
+    ("eq-cs-swap-calc", "C07", CH, r"(            let dur = metrics\.calculate_duration\(&msg, rng_ref\);\n)(            let busy = metrics\.calculate_busy\(&msg\);\n)", r"\2\1", "keep"),
     ("tp-any-ne", "C19", TP, r"\.any\(\|edge\| edge\.dst == src\)", ".any(|edge| edge.dst != src)", "kill"),
     ("tp-visit-self", "C19", TP, r"visit\(topo, edge\.dst, visited\);", "visit(topo, i, visited);", "kill"),
     ("tp-skip-node0", "C19", TP, r"for start in 0\.\.self\.nodes\.len\(\) \{", "for start in 1..self.nodes.len() {", "kill"),
